@@ -18,6 +18,7 @@ import itertools, math
 from fractions import Fraction
 from functools import lru_cache
 import numpy as np
+from mc.explore import recycle
 
 ID = "C03"
 # computational entry points whose results are watched by the engine's retained-result oracle (mc/explore.py)
@@ -93,8 +94,9 @@ _CACHE = {}
 def call_impl(obs, ens):
     from hydrodiy.stat import metrics
     obs = [NAN if v is None else v for v in obs]        # None stands for NaN in cache keys / JSON
-    d, table = metrics.crps(np.array(obs, dtype=np.float64),
-                            np.array(ens, dtype=np.float64).reshape(len(ens), -1))
+    # the same two array objects are refilled for every call of the same shape (see mc.explore.recycle)
+    d, table = metrics.crps(recycle("obs", np.array(obs, dtype=np.float64)),
+                            recycle("ens", np.array(ens, dtype=np.float64).reshape(len(ens), -1)))
     idx = list(d.index)
     return tuple(float(d[k]) for k in COMPS), idx, table.shape
 
